@@ -71,8 +71,10 @@ def coincidences(lines):
     return sum(1 for v in cnt.values() if v >= 2)
 
 
-def _run_cases(cases, oracles, nontrivial):
-    """implementation, model and oracles on a list of cases; returns the partial results of this batch"""
+def _run_cases(cases, oracles, nontrivial, attribute=None):
+    """implementation, model and oracles on a list of cases; returns the partial results of this batch.  `attribute(list of (case, impl
+    lines, model lines))` -> list of bool says, for the cases on which implementation and model disagree, whether the disagreement is
+    about what this property constrains (default: every one is)"""
     for i, c in enumerate(cases):
         c.cid = f'{i}'
     impl, runners = {}, {}
@@ -85,6 +87,7 @@ def _run_cases(cases, oracles, nontrivial):
         chunk = cases[i:i + CH]
         model.update(split_cases(run_driver('kernel', '\n'.join(c.text() for c in chunk) + '\n')))
     disagreements, oracle_failures = [], []
+    dis_all = []
     hist = collections.Counter()
     distinct = {}          # script text -> non-trivial?
     samples = []
@@ -107,9 +110,7 @@ def _run_cases(cases, oracles, nontrivial):
         nt = bool((nontrivial or default_nontrivial)(c, a))
         distinct[txt] = distinct.get(txt, False) or nt
         if a != b:
-            d = first_diff(a, b)
-            disagreements.append({'case': c.to_json(), 'detail': f'line {d[0]}: impl `{d[1]}` model `{d[2]}`' if d else 'length',
-                                  'impl': a[:400], 'model': (b or [])[:400]})
+            dis_all.append((c, a, b))
         for orc in oracles:
             for f in orc(c, a, runners[c.cid]) or []:
                 f.setdefault('case', c.to_json())
@@ -117,6 +118,12 @@ def _run_cases(cases, oracles, nontrivial):
                 oracle_failures.append(f)
         if len(samples) < 2 and nt:
             samples.append({'script': c.text().splitlines(), 'implementation_trace': a[:60]})
+    own = attribute(dis_all) if (attribute is not None and dis_all) else [True] * len(dis_all)
+    foreign = []
+    for (c, a, b), mine in zip(dis_all, own):
+        d = first_diff(a, b)
+        rec = {'case': c.to_json(), 'detail': f'line {d[0]}: impl `{d[1]}` model `{d[2]}`' if d else 'length', 'impl': a[:400], 'model': (b or [])[:400]}
+        (disagreements if mine else foreign).append(rec)
     for l in impl.values():
         for x in l:
             hist['obs:' + x.split(' ')[0] + (':' + x.split(' ')[2] if x[0] == 'P' else '')] += 1
@@ -124,6 +131,7 @@ def _run_cases(cases, oracles, nontrivial):
                 hist['raise:' + x.split(' ')[1]] += 1
     import hashlib
     return {'n': len(cases), 'disagreements': disagreements[:20], 'n_dis': len(disagreements), 'oracle_failures': oracle_failures[:20],
+            'foreign': [{k: v for k, v in f.items() if k != 'model'} for f in foreign[:3]], 'n_foreign': len(foreign),
             'hist': hist, 'distinct': {hashlib.sha1(t.encode()).hexdigest(): v for t, v in distinct.items()}, 'samples': samples,
             'lines': sum(len(v) for v in impl.values())}
 
@@ -135,14 +143,14 @@ def _shard(k):
     """one worker of the thorough tier: its own PRNG stream, its own driver processes (forked: inherits _JOB)"""
     j = _JOB
     rng = random.Random(f'{j["prop"]}-{j["seed"]}-shard{k}')
-    return _run_cases(gen_cases(rng, j['spec'], j['per_shard']), j['oracles'], j['nontrivial'])
+    return _run_cases(gen_cases(rng, j['spec'], j['per_shard']), j['oracles'], j['nontrivial'], j.get('attribute'))
 
 
 THOROUGH_SHARDS = 12          # worker processes of the thorough tier (the sandbox has 16 cores)
 THOROUGH_FACTOR = 12          # the thorough tier runs this many times the nominal number of cases, spread over the shards
 
 
-def run_kernel(ctx, prop, spec, n_quick, n_thorough, oracles=(), nontrivial=None, rule=''):
+def run_kernel(ctx, prop, spec, n_quick, n_thorough, oracles=(), nontrivial=None, rule='', attribute=None):
     rng = random.Random(f'{prop}-{ctx.seed}')
     if ctx.replay:
         j = json.load(open(ctx.replay))
@@ -150,14 +158,14 @@ def run_kernel(ctx, prop, spec, n_quick, n_thorough, oracles=(), nontrivial=None
         for d in j.get('broken_correspondence', []) or []:
             if d.get('case'):
                 cases.append(Case.from_json(d['case']))
-        parts = [_run_cases(cases, oracles, nontrivial)]
+        parts = [_run_cases(cases, oracles, nontrivial, attribute)]
     elif ctx.quick:
-        parts = [_run_cases(corpus_cases(prop) + gen_cases(rng, spec, n_quick), oracles, nontrivial)]
+        parts = [_run_cases(corpus_cases(prop) + gen_cases(rng, spec, n_quick), oracles, nontrivial, attribute)]
     else:
         # thorough: the corpus and the quick stream in this process, then THOROUGH_FACTOR x n_thorough fresh cases on worker processes
-        parts = [_run_cases(corpus_cases(prop) + gen_cases(rng, spec, n_quick), oracles, nontrivial)]
+        parts = [_run_cases(corpus_cases(prop) + gen_cases(rng, spec, n_quick), oracles, nontrivial, attribute)]
         import multiprocessing
-        _JOB.update(prop=prop, seed=ctx.seed, spec=spec, oracles=oracles, nontrivial=nontrivial,
+        _JOB.update(prop=prop, seed=ctx.seed, spec=spec, oracles=oracles, nontrivial=nontrivial, attribute=attribute,
                     per_shard=max(1, THOROUGH_FACTOR * n_thorough // THOROUGH_SHARDS))
         with multiprocessing.get_context('fork').Pool(THOROUGH_SHARDS) as pool:
             parts += pool.map(_shard, range(THOROUGH_SHARDS))
@@ -176,11 +184,15 @@ def run_kernel(ctx, prop, spec, n_quick, n_thorough, oracles=(), nontrivial=None
         'distinct_nontrivial': sum(1 for v in distinct.values() if v),
         'rule': rule or 'seeded random script programs; non-trivial = distinct script text with at least one instant at which two or more observations coincide',
         'samples': parts[0]['samples'],
-        'traces_validated_against_impl': n - ndis,
+        'traces_validated_against_impl': n - ndis - sum(p.get('n_foreign', 0) for p in parts),
         'observation_lines_compared': sum(p['lines'] for p in parts),
         'operation_histogram': dict(sorted(hist.items())),
         'worker_processes': len(parts) - 1,
     }
+    nf = sum(p.get('n_foreign', 0) for p in parts)
+    if attribute is not None:
+        cov['disagreements_not_about_this_property'] = {
+            'count': nf, 'why': (attribute.__doc__ or '').strip(), 'samples': [f for p in parts for f in p.get('foreign', [])][:3]}
     return {'coverage': cov, 'disagreements': disagreements, 'oracle_failures': oracle_failures}
 
 
@@ -241,3 +253,46 @@ def oracle_split(case, lines, runner=None):
             elif n[2] and not n[3]:
                 fails.append({'what': 'run(until=event) did not return the event value', 'signature': 'until-event-value'})
     return fails
+
+
+def split_is_the_cause(dis):
+    """C03 is about stopping and resuming (and about reproducibility, which the direct oracles of harness/c03.py restate): when the
+    implementation and the kernel model disagree on a *split* run, the disagreement is C03's if they agree on the uninterrupted run
+    of the same program - then it is the stop that one of them gets wrong.  If they disagree on the uninterrupted run as well, what
+    differs is the kernel's behaviour on that program (resources, stores, conditions, interrupts ...), which is the subject of the
+    correspondence of C01, C02, C04-C07 - their checks replay uninterrupted runs of the same program families - and says nothing
+    about stopping; such a disagreement is recorded in the evidence and not counted here.  (The direct oracle `oracle_split`
+    compares split and uninterrupted run of the implementation in every case, whatever the model says.)"""
+    return [not (agrees is False) for agrees in _base_agrees(dis)]
+
+
+def stop_is_not_the_cause(dis):
+    """The converse, for the kernel properties whose text says nothing about stopping a run (C02, C04-C07; C01 names the run-until stop
+    and keeps every case): a disagreement between implementation and kernel model on a *split* run counts only if they also disagree
+    on the uninterrupted run of the same program.  If they agree there, what differs is how `run(until=...)` / `step()` stop and
+    resume the run - C03's subject, whose check replays the same split programs - and the case is recorded in the evidence, not
+    counted.  Cases of the `untilfail` family (a failed until-event re-raised by `run`: the last clause of C02) always count."""
+    return [(agrees is not True) or getattr(c, 'kind', '') == 'untilfail' for (c, a, b), agrees in zip(dis, _base_agrees(dis))]
+
+
+def _base_agrees(dis):
+    """for every disagreeing case that is a split run: do implementation and model agree on the uninterrupted run of the same program?
+    (None: not a split run, or beyond the first 300 disagreements of the batch - such a case always counts)"""
+    out = [None] * len(dis)
+    bases = {}
+    for i, (c, a, b) in enumerate(dis[:300]):
+        if c.mode != 'plan' or not c.plan:
+            continue
+        base = Case.from_json({**c.to_json(), 'plan': []})
+        base.cid = f'b{i}'
+        bases[i] = base
+    if not bases:
+        return out
+    model = split_cases(run_driver('kernel', '\n'.join(b.text() for b in bases.values()) + '\n'))
+    for i, base in bases.items():
+        try:
+            impl = kscript.Runner(base).run()
+        except Exception:
+            continue
+        out[i] = impl == model.get(base.cid)
+    return out
